@@ -281,12 +281,15 @@ def find_body(crate, pattern, unique=True):
     return bs
 
 
-def is_decode(t):
-    """<A as Codec>::unsafe_from_bits(<&SeqSlice<A> as Into<u8>>::into(X)) -> X"""
+def is_decode(t, nth=True):
+    """<A as Codec>::unsafe_from_bits(<&SeqSlice<A> as Into<u8>>::into(X)) -> X; or SeqSlice::nth(s, i), which is that by its own
+    row (C03 S-nth, judged with nth=False)"""
     if isinstance(t, tuple) and t[0] == "call" and t[1] == "<A as codec::Codec>::unsafe_from_bits":
         a = t[2][0]
         if isinstance(a, tuple) and a[0] == "call" and a[1] == "CONV<&seq::slice::SeqSlice<A> -> u8>":
             return a[2][0]
+    if nth and isinstance(t, tuple) and t[0] == "call" and t[1] == "seq::slice::SeqSlice::<A>::nth" and len(t[2]) == 2:
+        return ("sym1", t[2][0], nf.canon(t[2][1]))
     return None
 
 
